@@ -515,13 +515,15 @@ def _dobserved(h, order, what):
         require(isinstance(ent, (tuple, list)) and len(ent) == 2,
                 lambda: "%s: entry %r is not a (pattern, count) pair" % (what, ent), key="shape")
         pat, cnt = ent
-        require(isinstance(cnt, numbers.Integral) and not isinstance(cnt, bool) and cnt >= 1,
-                lambda: "%s: count of pattern %r is %r, expected a positive int" % (what, pat, cnt),
-                key="count-type")
+        require(isinstance(cnt, numbers.Integral) and not isinstance(cnt, bool) and cnt >= 0,
+                lambda: "%s: count of pattern %r is %r, expected a non-negative int"
+                % (what, pat, cnt), key="count-type")
         key = tuple((tuple(s), tuple(t)) for s, t in pat)
         require(key not in d, lambda: "%s: pattern %r is listed twice" % (what, pat),
                 key="pattern-twice")
-        d[key] = cnt
+        if cnt:
+            # a class listed with count 0 says the same as a class that is not listed
+            d[key] = cnt
     return d
 
 
